@@ -33,6 +33,11 @@ func (e *Exec) intrinsic(st *State, fr *Frame, ci *callInfo) (Value, bool, bool)
 	case "strings.Index":
 		used()
 		return scalar(tInt, App(SInt, "str.indexof", t1(0), t1(1), Zero)), true, false
+	case "strings.Join":
+		used()
+		arr := e.cur(st, "elem:string", SStr, true)
+		e.declareFun("sf.strJoin", []Sort{ArrS(SInt, SStr), SInt, SInt, SStr}, SStr)
+		return scalar(tString, App(SStr, "sf.strJoin", Select(arr, sliceBase(a[0])), sliceOff(a[0]), sliceLen(a[0]), t1(1))), true, false
 	case "strings.TrimPrefix":
 		used()
 		s, p := t1(0), t1(1)
